@@ -370,7 +370,8 @@ def check_caps_simple(ip, ctx, out):
         for j in range(k, N):
             a, b = 'B%d' % j, 'B%d' % (j + 1)
             if ranks[j] == 3:
-                factors += [('m%d' % j, (f(a), f(b), f('s%d' % j))), ('trsq', (f('s%d' % j),))]
+                # a rank-3 tensor stands for m[a,b,s] delta(s,s') on the (transformed) in and out legs: BOTH traces, at the same index
+                factors += [('m%d' % j, (f(a), f(b), f('s%d' % j))), ('tr_in', (f('s%d' % j),)), ('tr_out', (f('s%d' % j),))]
             else:
                 factors += [('m%d' % j, (f(a), f(b), f('s%d' % j), f('t%d' % j))), ('tr_in', (f('s%d' % j),)), ('tr_out', (f('t%d' % j),))]
         factors.append(('ONE', (f('B%d' % N),)))
@@ -398,7 +399,8 @@ def targets_pt(prop='C03'):
                                     registry=R, replay=lambda ob: {'func': 'set_after_get', 'inputs': {'obligation': ob['name']}}))
     for ranks in ((4,), (3,), (4, 4), (3, 4), (4, 3, 4)):
         T.append(WireTarget('pt/compute_caps%s' % (list(ranks),), 'process_tensor.SimpleProcessTensor.compute_caps',
-                            build_caps_simple(ranks), check_caps_simple, prop, registry=R))
+                            build_caps_simple(ranks), check_caps_simple, prop, registry=R,
+                            replay=lambda ob: {'func': 'rank3_with_transforms', 'inputs': {'obligation': ob['name']}}))
     return T
 
 
@@ -491,7 +493,8 @@ def targets_file(prop):
     for ranks in ((4,), (3,), (4, 4), (3, 4)):
         for wt in (False, True):
             T.append(WireTarget('pt/file-compute_caps%s[transforms=%s]' % (list(ranks), wt), 'process_tensor.FileProcessTensor.compute_caps',
-                                build_caps_file(ranks, wt), check_caps_file, prop, registry=R))
+                                build_caps_file(ranks, wt), check_caps_file, prop, registry=R,
+                                replay=lambda ob: {'func': 'rank3_with_transforms', 'inputs': {'obligation': ob['name']}}))
     return T
 
 
